@@ -850,6 +850,8 @@ func (r *runner) stuckEvent() Event {
 		default:
 			if st, _, ok := r.roleState(role); ok {
 				at = st
+			} else if role == "W" {
+				at = "wait" // before its first gate: waiting for the receiver to finish
 			}
 		}
 		ev[strings.ToLower(role)] = at
